@@ -53,6 +53,21 @@ Theorem cancel_cancels_exactly_awaited : forall assign canc d k w, mem d (held w
 Proof. exact cancel_exactly. Qed.
 Print Assumptions cancel_cancels_exactly_awaited.
 
+(** ... and cancelling while the function is RUNNING (code it calls cancels its own Deferred or that of a call further up
+    its stack, [GCancelNow]) cancels nothing and delivers nothing: the running function is not waiting on anything.
+    It goes on, and by [inline_matches_sync_partial] — which quantifies over all trees, hence over cancellations at any
+    point of the execution, while suspended ([SCancel] in the schedule) or while running ([GCancelNow] in the tree) —
+    the outcome and everything observed are still those of the synchronous run. *)
+Theorem cancel_while_running_cancels_nothing : forall assign canc lvl g w,
+  drive assign canc (GCancelNow lvl g) w = drive assign canc g (say (CancelNow lvl) w) /\
+  fired (snd (drive assign canc (GCancelNow lvl g) w)) = fired w /\
+  cancelled (snd (drive assign canc (GCancelNow lvl g) w)) = cancelled w.
+Proof.
+  intros assign canc lvl g w. split; [reflexivity|].
+  destruct (drive_world assign canc (GCancelNow lvl g) w) as (H1 & H2 & _). split; assumption.
+Qed.
+Print Assumptions cancel_while_running_cancels_nothing.
+
 Theorem each_deferred_cancelled_at_most_once : forall assign canc pre hold0 g sched,
   NoDup (cancelled (snd (run assign canc pre hold0 g sched))).
 Proof. exact run_cancel_nodup. Qed.
